@@ -6,12 +6,15 @@
     src/commons/storage/verif.rs ([fs-create-dir], [fs-create-file], [fs-write], [fs-rename],
     [fs-remove-dir], [fs-remove-file]):
 
-      - [OMkParents] + [OCreateFile] + [OWrite] = [file::save] (src/commons/file.rs 80-139):
+      - [OMkParents] + [OCreateFile] + [OWrite] = [file::save] (src/commons/file.rs 80-140):
         [create_file] creates missing parent directories (before its probe point, hence an
-        operation without label) and opens with [create(true)] *without* [truncate];
-        the write then starts at offset 0. Writing over a file that holds other content leaves
-        the new bytes followed by whatever tail the old file had: [CMix] (unspecified content);
-        writing over an empty file or over identical content gives the content;
+        operation without label) and opens with [create(true)] and, since commit 861388f0,
+        [truncate(true)]: an existing file is emptied when it is opened ([Truncating], the code
+        of record). Before that commit the file was opened without truncation ([NonTruncating],
+        kept as [_pinned] regression example): the write starts at offset 0, and writing over
+        a file that holds other content leaves the new bytes followed by whatever tail the old
+        file had: [CMix] (unspecified content) - finding F11g. Writing over an empty file or
+        over identical content gives the content;
       - [ORename] = [fs::rename] (atomic; onto a non-empty directory it fails, ENOTEMPTY);
       - [ORemoveTree] = [fs::remove_dir_all], [ORemoveFile] = [fs::remove_file];
       - [OMkdirAll] = [fs::create_dir_all];
@@ -164,17 +167,25 @@ Fixpoint mkdir_from (pre rest : path) (f : fs) : option fs :=
   end.
 Definition mkdir_all (p : path) (f : fs) : option fs := mkdir_from [] p f.
 
-(** [file::create_file] (file.rs 80-114) in two steps: if the path does not exist its parent
+(** How [create_file] opens an existing file. *)
+Inductive wmode : Type := Truncating | NonTruncating.
+(** The tree under /repo (file.rs 102: [options.truncate(true)], since 861388f0). *)
+Definition file_mode : wmode := Truncating.
+
+(** [file::create_file] (file.rs 80-115) in two steps: if the path does not exist its parent
     directories are created (81-95, before the probe point); then the file is opened with
-    [create(true)] (96-113). *)
+    [create(true)] and [truncate(true)] (96-114). *)
 Definition mk_parents (p : path) (f : fs) : option fs :=
   if fs_exists p f then Some f else mkdir_all (removelast p) f.
-Definition create_file (p : path) (f : fs) : option fs :=
+Definition set_content (p : path) (c : fcontent) (f : fs) : fs :=
+  map (fun e => if path_eqb (fst e) p then match snd e with File _ => (fst e, File c) | Dir => e end else e) f.
+Definition create_file_m (m : wmode) (p : path) (f : fs) : option fs :=
   match fs_get p f with
-  | Some (File _) => Some f
+  | Some (File _) => Some (match m with Truncating => set_content p CEmpty f | NonTruncating => f end)
   | Some Dir => None                               (* EISDIR *)
   | None => if fs_is_dir (removelast p) f then Some ((p, File CEmpty) :: f) else None   (* ENOENT *)
   end.
+Definition create_file : path -> fs -> option fs := create_file_m file_mode.
 
 Definition write_file (p : path) (c : fcontent) (f : fs) : option fs :=
   match fs_file p f with
@@ -233,11 +244,11 @@ Inductive fsop : Type :=
 | OArchive (src dst : path)
 | OFail.                                          (* the code raises an error itself; no mutation *)
 
-Definition exec (o : fsop) (f : fs) : option fs :=
+Definition exec_m (m : wmode) (o : fsop) (f : fs) : option fs :=
   match o with
   | OMkdirAll p => mkdir_all p f
   | OMkParents p => mk_parents p f
-  | OCreateFile p => create_file p f
+  | OCreateFile p => create_file_m m p f
   | OWrite p c => write_file p c f
   | ORename s d _ => rename s d f
   | ORemoveTree p _ => remove_tree p f
@@ -246,6 +257,7 @@ Definition exec (o : fsop) (f : fs) : option fs :=
   | OArchive s d => match mkdir_all d f with Some f' => rename s d f' | None => None end
   | OFail => None
   end.
+Definition exec : fsop -> fs -> option fs := exec_m file_mode.
 
 Definition best_effort (o : fsop) : bool :=
   match o with
@@ -259,15 +271,16 @@ Definition save_c (p : path) (c : fcontent) : list fsop := [OMkParents p; OCreat
 Definition save_ops (p : path) (d : fdata) : list fsop := save_c p (CData d).
 
 (** Result of a run: the file system reached and whether the procedure returned [Ok]. *)
-Fixpoint run (ops : list fsop) (f : fs) : fs * bool :=
+Fixpoint run_m (m : wmode) (ops : list fsop) (f : fs) : fs * bool :=
   match ops with
   | [] => (f, true)
   | o :: rest =>
-      match exec o f with
-      | Some f' => run rest f'
-      | None => if best_effort o then run rest f else (f, false)
+      match exec_m m o f with
+      | Some f' => run_m m rest f'
+      | None => if best_effort o then run_m m rest f else (f, false)
       end
   end.
+Definition run : list fsop -> fs -> fs * bool := run_m file_mode.
 (** The state a crash right before mutation [n] leaves behind. *)
 Definition cut (n : nat) (ops : list fsop) (f : fs) : fs := fst (run (firstn n ops) f).
 
